@@ -15,14 +15,14 @@ C07-1:C07:missed C07-2:C07:caught
 C12-1:C12:caught C12-2:C12:caught C12-3:C12:caught C12-4:C12:caught
 C13-1:C13:missed C13-2:C13:caught
 C14-1:C14:caught C14-2:C14:caught C14-3:C14:caught C14-4:C14:caught
-C15-1:C15:caught C15-2:C15:missed
+C15-1:C15:caught C15-2:C15:caught
 C17-1:C17:missed C17-2:C17:missed
 C19-1:C19:missed C19-2:C19:missed
 C20-1:C20:missed C20-2:C20:caught
 C22-1:C22:caught C22-2:C22:caught C22-3:C22:caught C22-4:C22:caught
 C26-1:C26:caught C26-2:C26:missed C26-3:C26:missed C26-4:C26:caught
-C27-1:C27:caught C27-2:C27:missed
-C28-1:C28:missed C28-2:C28:caught C28-3:C28:missed C28-4:C28:caught
+C27-1:C27:caught C27-2:C27:caught
+C28-1:C28:missed C28-2:C28:caught C28-3:C28:caught C28-4:C28:caught
 C34-1:C34:caught C34-2:C34:missed C34-3:C34:missed C34-4:C34:missed
 C36-1:C36:missed C36-2:C36:caught
 "
